@@ -1567,7 +1567,17 @@ class C26(HistoryProfile):
           rows[t].remove(rid)
     if not acts:
       acts = [["AddRecord", "A", -1, {"n": 1}]]
-    return {"k": "bundle", "a": acts, "ops": ["tempids" + ("_bad" if bad else "")]}
+    ops = ["tempids" + ("_bad" if bad else "")]
+    if len(acts) >= 2 and rng.random() < 0.2:
+      # the table changes its name in mid-bundle (and gets it back at the end): temporary ids
+      # created under the old name must still stand for their rows under the new one
+      t = rng.choice(["A", "B"])
+      k = rng.randint(1, len(acts) - 1)
+      acts = (acts[:k] + [["RenameTable", t, t + "9"]] +
+              [[a[0], t + "9"] + a[2:] if a[1] == t else a for a in acts[k:]] +
+              [["RenameTable", t + "9", t]])
+      ops.append("rename_mid_bundle")
+    return {"k": "bundle", "a": acts, "ops": ops}
 
   def step(self, sim, ev, st):
     out = sim.do(ev)
@@ -1577,7 +1587,14 @@ class C26(HistoryProfile):
       return out
     if "A" not in out.pre or "B" not in out.pre:
       return out
-    model = self._interpret(out.pre, ev["a"], out.ret if out.ok else None)
+    acts, ret = ev["a"], (out.ret if out.ok else None)
+    if "rename_mid_bundle" in ev.get("ops", ()):
+      # interpret the bundle under the tables' lasting names
+      keep = [i for i, a in enumerate(acts) if a[0] != "RenameTable"]
+      if ret is not None:
+        ret = [ret[i] for i in keep]
+      acts = [[acts[i][0], acts[i][1].rstrip("9")] + acts[i][2:] for i in keep]
+    model = self._interpret(out.pre, acts, ret)
     if model == "unknown-temp":
       if out.ok:
         raise vio(sim, "unknown-temp-id-accepted", "bundle uses a negative id that no action in it "
